@@ -186,6 +186,17 @@ theorem direct_registration_is_a_set (w : World) (e c : Nat) (ct : CAttr) (hc : 
   · rw [(h2 false false).1, (h1 false).1]
     simp [eraseP_idem]
 
+/-- A direct subscribe that races with other calls (they run after the global centre looked the name's list up and
+before it stores the centre): the racing script runs, then the subscription takes effect — so by
+`direct_registration_is_a_set` the centre ends up registered whatever the racing calls did (unsubscribing the last
+other centre of that name, clearing it, subscribing further centres …). -/
+theorem racing_subscribe_is_script_then_subscribe (w : World) (e c t : Nat) (ct : CAttr) (hc : w.cs[c]? = some ct)
+    (hl : ct.light = false) (ht : t ∉ w.hooked) :
+    (doGsubH w e c t).stack = .script 0 (scriptOf w t ++ [.gsub e c]) :: w.stack ∧ (doGsubH w e c t).greg = w.greg := by
+  have : w.hooked.contains t = false := by simpa using ht
+  simp only [doGsubH, hc, hl, this, scriptOf, tmplOf]
+  cases (List.find? (fun x => x.1 == t) w.tmpls) <;> simp
+
 /-- A global publication appends exactly one event to the queue of every centre registered for the name —
 through `GSubscribe` or through a direct `Subscribe` on the global centre — unless that queue already holds 999
 events, and to no other centre; nothing else about any centre changes.  (No counter is consulted: a stray or
